@@ -105,6 +105,7 @@ class RefInterp(ObjInterp):
         self.field_ids = field_ids
         self.field_name = field_name
         self.otype = {}
+        self.inlined = {}
 
     def is_own_fn(self, f):
         if f.get('rec') == IP:
@@ -443,6 +444,7 @@ class RefInterp(ObjInterp):
                 d['v:' + p['id']] = v
         res = []
         self._last_rv = []
+        self.inlined[callee['id']] = self.inlined.get(callee['id'], 0) + 1
         for s2, rv in self.run_fn(callee, env, freeze(d), fr, n, frame_depth(fr) + 1):
             d2 = {k: v for k, v in thaw(s2).items() if not k.startswith('v:') or k in before}
             s3 = freeze(d2)
@@ -770,6 +772,7 @@ def check_effects(ctx, tu, seen_patterns):
     # template-pattern field id (dependent bodies reference the pattern's FieldDecl)
     it = RefInterp(tu, field_ids, field_name)
     n1 = n3 = 0
+    helpers = []
     for f in sorted(tu.functions.values(), key=lambda x: (x['f'], x['l'], x['q'], x['fty'])):
         if f['dep'] or tu.cfg(f) is None or not it.is_own_fn(f):
             continue
@@ -781,7 +784,9 @@ def check_effects(ctx, tu, seen_patterns):
             seen_patterns.add(f['pat'])
         tch = touches(tu, f, field_ids, set())
         if role is None:
-            if tch:
+            if tch and is_private_helper(tu, f):
+                helpers.append((f, inst0))       # reported after all callers were interpreted
+            elif tch:
                 ctx.undecided(R1, inst0, 'member touches the pointer member / the count but has no known role '
                               '(constructor, destructor, assignment, reader, comparison)', tu.fn_loc(f))
             continue
@@ -839,7 +844,26 @@ def check_effects(ctx, tu, seen_patterns):
                                                                                    if k[0] not in '#!$' and v != 'gone' and not k.startswith('v:')}
                                                             ) if rule == R1 else 'returns %s' % (outs[0][1],), tu.fn_loc(f),
                        nontrivial=bool(tch) or role == 'compare')
+    for f, inst0 in helpers:
+        k = it.inlined.get(f['id'], 0)
+        ctx.ok(R1, inst0, 'private helper (the class has no friends): its effects are interpreted at each of its %d call site(s) inside '
+               'the analysed members, with the arguments bound' % k, tu.fn_loc(f), nontrivial=k > 0)
     return n1, n3
+
+
+def has_friends(tu, name):
+    for d in tu.decls:
+        for x in tu.walk(d):
+            if x.get('kind') == 'CXXRecordDecl' and x.get('name') == name:
+                if any(y.get('kind') == 'FriendDecl' for y in tu.kids(x)):
+                    return True
+    return False
+
+
+def is_private_helper(tu, f):
+    """a private member of the handle without a role of its own: callable only from the members of the class (all of which are
+    interpreted with their callees inlined), provided the class befriends nobody"""
+    return f.get('rec') == IP and f.get('access') == 'private' and not f.get('virt') and not has_friends(tu, IP.split('::')[-1])
 
 
 def post(role, f, env, d0, d, rv, handles):
@@ -1224,7 +1248,7 @@ def check_coverage(ctx, tu, seen_patterns, counter_ids, lib_tus):
                 ctx.undecided(R4, pattern_name(tu, f), 'template member has no instantiation in drivers/c08_refcount.cpp: its effects '
                               'were not analysed', tu.fn_loc(f))
     analysed_patterns = {pattern_name(tu, f) for f in tu.functions.values() if not f['dep'] and (
-        (f.get('rec') == IP and role_of(f) is not None) or (f.get('rec') == RCO and (f['q'] in (INC, DEC, USE) or f.get('ctor') or f.get('dtor')))
+        (f.get('rec') == IP and (role_of(f) is not None or is_private_helper(tu, f))) or (f.get('rec') == RCO and (f['q'] in (INC, DEC, USE) or f.get('ctor') or f.get('dtor')))
         or (not f.get('rec') and role_of(f) == 'compare'))}
     # who touches, in the driver unit and in every library source
     for t in [tu] + list(lib_tus):
@@ -1256,7 +1280,7 @@ def check_coverage(ctx, tu, seen_patterns, counter_ids, lib_tus):
             inst = '%s %s [%s]' % (f['q'], f['fty'], t.unit)
             if own and t is tu:
                 known = (f.get('rec') == RCO and (f['q'] in (INC, DEC, USE) or f.get('ctor') or f.get('dtor'))) or \
-                        (f.get('rec') != RCO and role_of(f) is not None)
+                        (f.get('rec') != RCO and (role_of(f) is not None or is_private_helper(tu, f)))
                 if 'counter' in tch and not (f.get('rec') == RCO and (f['q'] in (INC, DEC, USE) or f.get('ctor'))):
                     known = False
                 if known:
